@@ -308,6 +308,8 @@ def numbering():
         # tracing options switched on and off again, together and one at a time
         [{'trace_threads': True, 'trace_modules': True}, {'trace_threads': False}, {'trace_modules': False}, {'trace_threads': True}],
         [{'trace_modules': True}, {'trace_modules': False, 'statement': 'B'}, {'trace_threads': False, 'trace_modules': True}],
+        # numbering restarted at zero and below (valid: the counter is an itertools.count), together with a new script
+        [{'statement': 'B', 'run_no_start_from': 0}, {}, {'run_no_start_from': -3}, {'statement': 'C', 'run_no_start_from': 0}],
     ]
     for i, seq in enumerate(seqs):
         steps = START + one_run()
@@ -315,6 +317,11 @@ def numbering():
             steps += [['call', 'A', 'reset', o], settle()] + one_run()
         steps += [['sample']]
         out.append(S(steps, dict(family='numbering', seq=i)))
+    # the same options given while the object is still `initialized` (before its first run), with what it displays read
+    # after each reset: a reset that is refused with an error must have changed nothing
+    steps = START + [['peek'], ['call', 'A', 'reset', {'statement': 'B', 'run_no_start_from': 0}], settle(), ['peek']] + one_run() + \
+        [['call', 'A', 'reset', {}], settle(), ['peek']] + one_run() + [['sample']]
+    out.append(S(steps, dict(family='numbering', seq='zero-before-first-run', expect_complete=False)))
     return out
 
 
